@@ -55,11 +55,16 @@ def _serialize_check_stats(check_stats, dtype=None):
     """Serialize check statistics into json/yaml-compatible format."""
 
     def handle_stat_dtype(stat):
-        if pandas_engine.Engine.dtype(dtypes.DateTime).check(
-            dtype
-        ) and hasattr(stat, "strftime"):
+        if (
+            dtype is not None
+            and dtypes.is_datetime(dtype)
+            and hasattr(stat, "strftime")
+        ):
             # try serializing stat as a string if it's datetime-like,
-            # otherwise return original value
+            # otherwise return original value; time-zone-aware values keep
+            # their utc offset
+            if getattr(stat, "tzinfo", None) is not None:
+                return stat.strftime(DATETIME_FORMAT + "%z")
             return stat.strftime(DATETIME_FORMAT)
         elif pandas_engine.Engine.dtype(dtypes.Timedelta).check(dtype):
             # try serializing stat into an int in nanoseconds if it's
@@ -199,8 +204,12 @@ def _deserialize_check_stats(check, serialized_check_stats, dtype=None):
 
     def handle_stat_dtype(stat):
         try:
-            if pandas_engine.Engine.dtype(dtypes.DateTime).check(dtype):
-                return pd.to_datetime(stat, format=DATETIME_FORMAT)
+            if dtype is not None and dtypes.is_datetime(dtype):
+                try:
+                    return pd.to_datetime(stat, format=DATETIME_FORMAT)
+                except ValueError:
+                    # time-zone-aware values are written with their offset
+                    return pd.to_datetime(stat, format=DATETIME_FORMAT + "%z")
             elif pandas_engine.Engine.dtype(dtypes.Timedelta).check(dtype):
                 # serialize to int in nanoseconds
                 return pd.to_timedelta(stat, unit="ns")
